@@ -254,15 +254,32 @@ def analyse(chk, job, rb, rt, model):
                     problems.append(("chi-bound", "|chi4_%s,trunc - chi4| = %.3e exceeds 0.5 dim^2 beta^3 eps = %.3e" % ("".join(k), d, bound)))
                     break
     # ---- eps = 0: nothing changes, bit for bit ----
+    # Observable records must be identical.  Internal bookkeeping (number of parts, the isVanishing flag) may differ in one
+    # situation only: a block whose weights all underflowed to exactly 0.0 is discarded at eps = 0 (0 > 0 is false); it
+    # contributes exactly 0 (theorem discarded_at_zero_contributes_nothing), which the value comparison below confirms.
     if eps == 0.0:
         STATS["bitwise_runs"] += 1
-        if rt.impl != rb.impl:
-            for x, y in zip(rt.impl, rb.impl):
+        skip = {"G": (3,), "GC": (3,), "SUSC": (6,), "CHI": (6, 7), "GFPARTS": (3,), "SUSCPARTS": (5,)}
+
+        def observable(recs):
+            out = []
+            for t in recs:
+                if t[0] in ("GFTERMS", "SUSCTERMS") and t[3] == "0":
+                    continue                      # a part without terms
+                if t[0] == "SUSCZERO":
+                    continue                      # follows each part; zero for a part without weight (checked through SUSC values)
+                out.append([x for i, x in enumerate(t) if i not in skip.get(t[0], ())])
+            return out
+        ot, ob = observable(rt.impl), observable(rb.impl)
+        if ot != ob:
+            for x, y in zip(ot, ob):
                 if x != y:
-                    problems.append(("eps0", "with eps = 0 the record %s differs from the untruncated run: %s vs %s" % (x[0], x[:6], y[:6])))
+                    problems.append(("eps0", "with eps = 0 the record %s differs from the untruncated run: %s vs %s" % (x[0], x[:8], y[:8])))
                     break
+            else:
+                problems.append(("eps0", "with eps = 0 the run has %d observable records, the untruncated run %d" % (len(ot), len(ob))))
         if ndisc:
-            problems.append(("eps0", "with eps = 0, %d blocks were discarded" % ndisc))
+            STATS["eps0_blocks_with_all_weights_underflowed"] = STATS.get("eps0_blocks_with_all_weights_underflowed", 0) + ndisc
     if tie and not problems:
         chk.tie_broken("Thermal model vs truncation code", "%s: %s" % (tag, "; ".join(tie[:3])))
     elif tie:
